@@ -182,6 +182,18 @@ Theorem C13_xlsx_typed_header_refuted : exists g : list (list xcell),
 Proof. exact xlsx_typed_header_refuted. Qed.
 Print Assumptions C13_xlsx_typed_header_refuted.
 
+(* typed values: dates/times come back as their ISO string, durations as their str() form, everything
+   else (numbers, booleans, text, error texts) unchanged — this is what xgrid_spec says cell by cell *)
+Theorem C13_xlsx_typed_values : forall (tok strf iso t : str) (z : Z) (b : bool),
+  x_cell_value (xdate tok strf iso) = VStr iso /\
+  x_cell_value (xdur tok strf) = VStr strf /\
+  x_cell_value {| xc_val := VInt z; xc_str := t; xc_conv := None |} = VInt z /\
+  x_cell_value {| xc_val := VFlt tok; xc_str := t; xc_conv := None |} = VFlt tok /\
+  x_cell_value {| xc_val := VBool b; xc_str := t; xc_conv := None |} = VBool b /\
+  x_cell_value (xstr t) = VStr t /\ x_cell_value xnone = VNone.
+Proof. intros; repeat split; reflexivity. Qed.
+Print Assumptions C13_xlsx_typed_values.
+
 (* ---------------------------------------------------------------- XLS *)
 Theorem C13_xls_sheet_partial : forall (g : list (list lcell)) (r0 : list lcell) (rest : list (list lcell)) (c : nat),
   g = r0 :: rest -> rest <> [] -> l_rect c g = true -> nodup_str (map lc_header r0) = true ->
